@@ -155,7 +155,7 @@ def run_case(case, ctx):
     ctx.nontrivial(loads.max() > 0.5 * m["Rm"])
     allow = lambda s: 2.0 * (tol + tol * abs(s))
     # structure: Seeger-Beste with a bracket [L/K_p, L] narrower than the secant's second starting point offset
-    narrow = ["c06_seegerbeste_kp_within_0.2pct_of_1"] if (kind == "seegerbeste" and kp - 1.0 < 0.002) else []
+    narrow = ["c06_seegerbeste_kp_within_1pct_of_1"] if (kind == "seegerbeste" and kp - 1.0 < 0.01) else []
 
     for branch, fwd, back, strain in (("primary", law.stress, law.load, law.strain),
                                       ("secondary", law.stress_secondary_branch, law.load_secondary_branch,
